@@ -62,6 +62,7 @@ type Scenario struct {
 	ShutKind   string `json:"shut_kind"`                // plain | ctx
 	ShutAfter  int    `json:"shut_after"`
 	CtxMs      int    `json:"ctx_ms,omitempty"`
+	Transient  []int  `json:"transient,omitempty"`  // these accept / datagram-read attempts fail with a temporary, non-timeout error
 	ShutB      bool   `json:"shutdown_b,omitempty"` // a second, concurrent Shutdown
 	Shut3      bool   `json:"shutdown_3,omitempty"` // a Shutdown after the first has returned
 }
@@ -130,10 +131,16 @@ func Gen(seed uint64, tier string) any {
 	sc.ShutKind = core.Pick(r, "plain", "plain", "ctx")
 	sc.ShutAfter = r.IntN(10 + 40*total)
 	if sc.ShutKind == "ctx" {
-		sc.CtxMs = core.Pick(r, 1, 10, 1000, 60000)
+		sc.CtxMs = core.Pick(r, 1, 10, 1000, 60000, -1)
 	}
 	sc.ShutB = core.Chance(r, 20)
 	sc.Shut3 = core.Chance(r, 20)
+	if core.Chance(r, 12) {
+		sc.Transient = append(sc.Transient, r.IntN(3))
+		if core.Chance(r, 40) {
+			sc.Transient = append(sc.Transient, sc.Transient[0]+1+r.IntN(2))
+		}
+	}
 	return sc
 }
 
@@ -442,6 +449,11 @@ func (x *run) shutdown(c *call, kind string, ctxMs int) {
 	k.Unlock()
 	var err error
 	if kind == "ctx" {
+		if ctxMs < 0 && core.Mode != "pristine" {
+			// with yields between the library's statements both cases of its select can be
+			// ready at once, and which one Go takes is not ours to decide
+			ctxMs = 1
+		}
 		c.ctx = common.NewCtx(k, time.Duration(ctxMs)*time.Millisecond, c.name)
 		err = x.srv.ShutdownContext(c.ctx)
 	} else {
@@ -777,6 +789,11 @@ func runIn(sc *Scenario, res *core.Result, verbose bool) {
 			x.l = n.Listen()
 			srv.Listener = x.l
 		}
+	}
+	if x.pc != nil {
+		x.pc.Transient = sc.Transient
+	} else {
+		x.l.Transient = sc.Transient
 	}
 	for ci, c := range sc.Clients {
 		for oi, op := range c.Ops {
